@@ -538,6 +538,7 @@ fn gen(cases_path: &str, out_rs: &str, out_facts: &str) {
         }
         let pfp = "aho_corasick::verif::prefilter";
         let mut pf_packed_min = 0usize;
+        let mut pf_packed_max_bucket = 0usize;
         let (pf_code, pf_expr): (u8, String) = match &pf_desc {
             verif::prefilter::Desc::None => (0, "None".into()),
             verif::prefilter::Desc::Start1(a) => (1, format!("Some({}::start1({}))", pfp, a)),
@@ -577,6 +578,7 @@ fn gen(cases_path: &str, out_rs: &str, out_facts: &str) {
                 // minimum length (which is every haystack of the automaton harnesses)
                 // `find_in` takes exactly that path in the real searcher.
                 pf_packed_min = raw.minimum_len;
+                pf_packed_max_bucket = raw.rk_buckets.iter().map(|b| b.len()).max().unwrap_or(0);
                 let _ = tb;
                 let e = packed_expr(&raw, raw.by_id.len(), "Q_", 0).replace("&Q_P", "&Q");
                 writeln!(rs, "pub fn get() -> aho_corasick::packed::Searcher {{ {} }}", e).unwrap();
@@ -630,7 +632,7 @@ fn gen(cases_path: &str, out_rs: &str, out_facts: &str) {
         write!(facts, "\"auto_kind\": {}, \"auto_equal\": {}, ", auto_kind, auto_equal).unwrap();
         write!(facts, "\"dfa_states\": {}, \"dfa_stride2\": {}, \"dfa_alphabet\": {}, \"dfa_match_rows\": {}, \"dfa_special\": {:?}, ", rd.state_len, rd.stride2, rd.alphabet_len, rd.matches.len(), rd.special).unwrap();
         write!(facts, "\"cnfa_special\": {:?}, \"nnfa_special\": {:?}, ", rc.special, rn.special).unwrap();
-        write!(facts, "\"prefilter\": {}, \"has_prefilter\": {}, \"pf_code\": {}, \"pf_packed_min\": {}, ", json_str(&rn.prefilter_debug), rn.has_prefilter, pf_code, pf_packed_min).unwrap();
+        write!(facts, "\"prefilter\": {}, \"has_prefilter\": {}, \"pf_code\": {}, \"pf_packed_min\": {}, \"pf_packed_max_bucket\": {}, ", json_str(&rn.prefilter_debug), rn.has_prefilter, pf_code, pf_packed_min, pf_packed_max_bucket).unwrap();
         // nnfa per-state: sparse list length, has dense row, match list length, fail chain length
         let mut nn_states = vec![];
         for (i, st) in rn.states.iter().enumerate() {
